@@ -241,6 +241,42 @@ theorem C19_timeout_exact (c : Cfg) (hbs : 1 ≤ c.bs) (hstrict : c.strict = tru
     have := hle hstrict
     exact ⟨by omega, rfl⟩
 
+/-- **Waits no longer than told** (zero processing time).  Whenever the batcher holds items it has
+    not yet handed out (`s.cur ≠ []`), at most `wait` has passed since it obtained the first of them;
+    and once the clock stands at `t0 + wait` no more time can pass before they are handed out. -/
+theorem C19_waits_no_longer_than_told (c : Cfg) (hbs : 1 ≤ c.bs) (hstrict : c.strict = true)
+    (as : List Act) (s : State) (h : Core.run (step c) init as = some s) (hcur : s.cur ≠ []) :
+    s.clock ≤ s.t0 + c.wait ∧ (s.clock = s.t0 + c.wait → ∀ d, step c s (.tick d) = none) := by
+  have hi := all_reachable c hbs ⟨as, h⟩
+  refine ⟨hi.told hstrict hcur, ?_⟩
+  intro heq d
+  cases hst : step c s (.tick d) with
+  | none => rfl
+  | some s' =>
+    exfalso
+    have hs := step_sound c s s' (.tick d) hst
+    cases hs with
+    | tick _ hd hg =>
+      rcases hg with hg | hg | hg | hg | hg
+      · simp [hstrict] at hg
+      · exact hcur (hi.idle hg.1).1
+      · omega
+      · exact hcur (hi.held hg)
+      · exact hcur (hi.done hg).1
+
+/-- the batcher and the consumer are deterministic: in any state at most one of
+    `take`/`timeout`/`emit`/`resume`/`stop` is enabled, so the batches and their clocks are a function
+    of the interleaving of arrivals and time alone (ties are the only source of different outcomes) -/
+theorem C19_batcher_deterministic (c : Cfg) (s : State) (a b : Act)
+    (ha : a ∈ [Act.take, .timeout, .emit, .resume, .stop]) (hb : b ∈ [Act.take, .timeout, .emit, .resume, .stop])
+    (hea : (step c s a).isSome) (heb : (step c s b).isSome) : a = b := by
+  simp only [List.mem_cons, List.not_mem_nil, or_false] at ha hb
+  rcases ha with rfl | rfl | rfl | rfl | rfl <;> rcases hb with rfl | rfl | rfl | rfl | rfl <;>
+    first
+    | rfl
+    | (exfalso
+       cases hq : s.q <;> cases hpc : s.pc <;> simp [step, hq, hpc] at hea heb)
+
 /-- arrival stamps are the clock values at the arrivals: nondecreasing and never in the future -/
 theorem C19_stamps (c : Cfg) (hbs : 1 ≤ c.bs) (as : List Act) (s : State)
     (h : Core.run (step c) init as = some s) :
